@@ -24,16 +24,17 @@ package server
 //@   requires s != nil && s.cache != nil && s.accessLogger != nil && s.errorLogger != nil && ctx != nil
 //@   noframe
 //@   modifies casAcked, putN, icloseN, iclosed
-//@   nosafety
 //@   ensures[C01] pinned: (result2 == nil && expectedHash != "") ==> result0 == expectedHash
 //@   call Cache.Put#* asserts[C01] pinned: arg2 == 1 && (expectedHash != "" ==> arg3 == expectedHash)
 
 // FetchBlob (C01): every download is attempted with the checksum the client pinned (if any), and an
 // OK answer after a download names the digest fetchItem returned for it.
+//@ extern (net/http.Header).Clone(h)
+//@   pure
+//@   ensures h != nil ==> result != nil
 //@ func (s *grpcServer) FetchBlob(ctx context.Context, req *asset.FetchBlobRequest) (*asset.FetchBlobResponse, error)
 //@   serves C01
 //@   requires s != nil && s.cache != nil && s.accessLogger != nil && s.errorLogger != nil && ctx != nil
 //@   noframe
-//@   nosafety
 //@   call fetchItem#* asserts[C01] pinned: arg4 == sha256Str && arg2 == uri
 //@   call Cache.Contains#* asserts[C01] cachedprobe: arg2 == 1 && arg3 == sha256Str
